@@ -69,7 +69,7 @@ Lemma do_insert_inflight s0 s t off ws fail :
   inflight s0 s t → off ∉ fill s →
   inflight s0 (fst (do_insert s t off ws fail)) (snd (do_insert s t off ws fail)).
 Proof.
-  intros [F D ND C] Hfresh. unfold do_insert. destruct fail; cbn [fst snd].
+  intros [F D ND C] Hfresh. unfold do_insert. rewrite ?sadd_union, ?sdel_diff. destruct fail; cbn [fst snd].
   - (* the failing insert gives its offset back at once *)
     constructor; cbn [fill count set_fill].
     + rewrite tres_do_writes. cbn [tres push_row]. rewrite F. set_solver.
@@ -147,9 +147,9 @@ Proof.
   specialize (IH s1 t1 (H1 Hx)). rewrite E2 in IH. apply IH. exact Hxs.
 Qed.
 
-Lemma remove_all (X : gset N) (l : list N) : foldl (λ f i, f ∖ {[i]}) X l = X ∖ list_to_set l.
+Lemma remove_all (X : gset N) (l : list N) : foldl (λ f i, sdel i f) X l = X ∖ list_to_set l.
 Proof.
-  revert X; induction l as [|i l IH]; intro X; cbn; [set_solver|]. rewrite IH. set_solver.
+  revert X; induction l as [|i l IH]; intro X; cbn; [set_solver|]. rewrite IH, sdel_diff. set_solver.
 Qed.
 
 Definition Quiescent (s : coll) : Prop := count s = N.of_nat (size (fill s)).
